@@ -97,6 +97,11 @@ def run(case, ctx, rng):
         ctx.cls(('generic', w, case['init'], case['final'], pc))
         got = call(lambda: C.crc(d, C.crc_table(Bits(P, w)), init, final))
         ctx.eq('crc-generic==bitwise', got, bitwise_crc(P, w, d, init, final), P=P, width=w, init=init, final=final, data=d)
+        # a table the caller assembled itself (a temporary list of its own Bits), for this and for another polynomial right after
+        P2 = P ^ (1 << (w // 2)) | (1 << (w - 1))
+        for Px in (P, P2, P):
+            gt = call(lambda: C.crc(d, [Bits(int(e), w) for e in C.crc_table(Bits(Px, w))], init, final))
+            ctx.eq('crc-generic==bitwise', gt, bitwise_crc(Px, w, d, init, final), P=Px, width=w, init=init, final=final, data=d, table='assembled by the caller (temporary)')
     elif k == 'table-reuse':
         w = case['width']
         P = rng.getrandbits(w) | (1 << (w - 1)) if case['final'] != 'rand' else rng.getrandbits(w - 2) | 1
